@@ -7,6 +7,7 @@ ENGINES = ['alnmon', 'sanrun']
 TECHNIQUE = 'differential observer (real prefilter vs always-true finder on the same adapter object) + ASan/UBSan on _kmer_finder'
 LEVEL_TEXT = "Two real executions per case on the same adapter object - with its k-mer finder and with an always-true finder - must agree exactly; the same workload (biased to reads shorter than the adapter) runs on an ASan+UBSan build in both tiers, where any report is a violation because the prefilter's verdict would then depend on memory outside the read."
 LEVEL_TEXT += ' Adapter lengths x absolute error numbers that round down in double precision (49/1, 47/3, 98/2, ...) are generated.'
+LEVEL_TEXT += ' Adapters with characters that are no IUPAC code under -N (they equal a read N when read wildcards are on).'
 LEVEL_NOTE = "Trusted base: swapping the kmer_finder attribute is equivalent to 'alignment alone'; red-zone sanitizers miss far out-of-bounds reads. Adapters whose finder is the fallback are counted as trivial."
 VARIANTS = {"quick": ["plain", "asan"], "thorough": ["plain", "asan"]}
 BUDGET_S = {"quick": 120, "thorough": 2400}
